@@ -804,6 +804,9 @@ func (se *specEnv) call(e *SExpr) SVal {
 		} else if site == "pre" && se.presite != "" {
 			site = se.presite
 		}
+		if site == "entry" {
+			site = "pre" // the preconditions of the function under verification, also from inside an inlined callee
+		}
 		if site == "last" {
 			// the most recently introduced skolem function with this label and arity
 			sks := f.ctx.skolems[label]
@@ -1247,7 +1250,7 @@ func (se *specEnv) existsFn(e *SExpr) SVal {
 		} else {
 			sks := f.ctx.skolems[e.Name]
 			cnt := 0
-			for i := len(sks) - 1; i >= 0 && cnt < 4; i-- {
+			for i := len(sks) - 1; i >= 0 && cnt < 8; i-- {
 				sk := sks[i]
 				if sk.res != rs || len(sk.sorts) == 0 || sk.sorts[len(sk.sorts)-1] != as {
 					continue
